@@ -501,13 +501,16 @@ func (rule *RuleAction) checkLocalActionRuns(meta *ActionMetadata, pos *Pos) {
 func (rule *RuleAction) checkDockerAction(uri string, exec *ExecAction) {
 	tag := ""
 	tagExists := false
-	if idx := strings.IndexRune(uri[len("docker://"):], ':'); idx != -1 {
-		idx += len("docker://")
-		if idx < len(uri) {
-			tag = uri[idx+1:]
-			uri = uri[:idx]
-			tagExists = true
-		}
+	ref := uri[len("docker://"):]
+	if idx := strings.IndexRune(ref, ':'); idx != -1 {
+		uri = uri[:len("docker://")+idx]
+	}
+	// The tag follows the last colon of the last path component. A colon before that is the port of a registry host
+	// (e.g. "docker://localhost:5000/image:tag").
+	last := ref[strings.LastIndexByte(ref, '/')+1:]
+	if idx := strings.LastIndexByte(last, ':'); idx != -1 {
+		tag = last[idx+1:]
+		tagExists = true
 	}
 
 	if _, err := url.Parse(uri); err != nil {
